@@ -255,3 +255,40 @@ Proof.
       unfold ci_equal in *. etransitivity; [exact Hs'|exact Hs]. }
   rewrite S. destruct (is_subdomain n' (c_origin c)); cbn; [exact Hc|reflexivity].
 Qed.
+
+(* letter case of a relative name *)
+Lemma ES_case_rel c r r' :
+  wfc c -> Valid r -> Valid r' -> ci r r' -> is_absolute r = false -> ES c c r r'.
+Proof.
+  intros [Vo Ao] V V' Hc A. split; [exact V|split; [exact V'|]].
+  assert (is_absolute r' = false) as A' by (rewrite <- (ci_equal_absolute r r' Hc); exact A).
+  unfold canon. rewrite A, A'.
+  assert (ci_equal (r ++ c_origin c) (r' ++ c_origin c)) as Hci by (apply ci_equal_app; [exact Hc|reflexivity]).
+  destruct (mk_name (r ++ c_origin c)) as [a|e|e] eqn:M.
+  - apply mk_name_ok in M. destruct M as [-> Va].
+    rewrite (mk_name_valid _ (Valid_ci _ _ Hci Va)). cbn. exact Hci.
+  - destruct (mk_name (r' ++ c_origin c)) as [a'|e'|e'] eqn:M'.
+    + exfalso. apply mk_name_ok in M'. destruct M' as [_ Va'].
+      assert (ci_equal (r' ++ c_origin c) (r ++ c_origin c)) as Hci' by (symmetry; exact Hci).
+      rewrite (mk_name_valid _ (Valid_ci _ _ Hci' Va')) in M. discriminate.
+    + (* both invalid: only the length limit can fail, on both sides *)
+      unfold mk_name in M, M'.
+      destruct (validate_labels (r ++ c_origin c)) as [[]| |] eqn:E1; try discriminate.
+      destruct (validate_labels (r' ++ c_origin c)) as [[]| |] eqn:E2; try discriminate.
+      inversion M; inversion M'; subst.
+      apply validate_error in E1. apply validate_error in E2.
+      pose proof (ci_equal_label_len _ _ Hci) as L.
+      assert (wire_length (r ++ c_origin c) = wire_length (r' ++ c_origin c)) as WL
+        by (rewrite !wire_length_lens, L; reflexivity).
+      assert (Forall (fun l => zlen l <= 63) (r ++ c_origin c) <-> Forall (fun l => zlen l <= 63) (r' ++ c_origin c)) as FL.
+      { assert (forall a b : name, map (@length Z) a = map (@length Z) b ->
+                  Forall (fun l => zlen l <= 63) a -> Forall (fun l => zlen l <= 63) b) as K.
+        { induction a as [|x a IH]; destruct b as [|y b]; intros Hl Hf; try discriminate; [constructor|].
+          inversion Hl. inversion Hf; subst. constructor; [unfold zlen in *; congruence|apply IH; auto]. }
+        split; apply K; [exact L|symmetry; exact L]. }
+      destruct E1 as [[-> H1]|[[-> (H1 & H1')]|[-> (H1 & H1' & H1'')]]],
+               E2 as [[-> H2]|[[-> (H2 & H2')]|[-> (H2 & H2' & H2'')]]];
+        cbn; try reflexivity; try (exfalso; tauto); try (exfalso; lia).
+    + exfalso. eapply mk_name_never_internal; eauto.
+  - exfalso. eapply mk_name_never_internal; eauto.
+Qed.
